@@ -679,6 +679,21 @@ def hosts_matmul_gemm():
                 h.n("Reshape", ["g", "s2"], "y")
                 h.out("y")
                 out.append(h.build())
+    # the same idiom with transposing Gemms and alpha != 1 (the rule is written for the plain form only)
+    for ta, tb, alpha in [(0, 1, 1.0), (1, 0, 1.0), (1, 1, 1.0), (0, 0, 2.0)]:
+        xs = (2, 2, 4) if not ta else (2, 2, 4)
+        h = H(f"Reshape(Gemm(Reshape(a), b, c, transA={ta}, transB={tb}, alpha={alpha}))")
+        h.inp("a", F, (2, 2, 4))
+        # r1 is [4, 4] so that both orientations are well-formed; b is square as well
+        h.c("b", w((4, 4)))
+        h.c("c", w((4,)))
+        h.c("s1", np.array([4, 4], dtype=np.int64))
+        h.c("s2", np.array([2, 2, 4], dtype=np.int64))
+        h.n("Reshape", ["a", "s1"], "r1")
+        h.n("Gemm", ["r1", "b", "c"], "g", transA=ta, transB=tb, alpha=alpha, beta=1.0)
+        h.n("Reshape", ["g", "s2"], "y")
+        h.out("y")
+        out.append(h.build())
     return out
 
 
@@ -721,6 +736,20 @@ def hosts_conv():
             h.n("BatchNormalization", ["g", "sc", "bi", "mean", "var"], "y", epsilon=eps)
             h.out("y")
             out.append(h.build())
+    # Gemm with alpha / beta other than 1 (and transA) followed by BatchNormalization
+    for alpha, beta, ta in [(1.0, 0.5, 0), (2.0, 1.0, 0), (0.5, 2.0, 0), (1.0, 1.0, 1)]:
+        h = H(f"BatchNorm(Gemm(x, w, b, alpha={alpha}, beta={beta}, transA={ta}))")
+        h.inp("x", F, (4, 2) if ta else (2, 4))
+        h.c("w", w((4, 3)))
+        h.c("b", w((3,)))
+        h.n("Gemm", ["x", "w", "b"], "g", alpha=alpha, beta=beta, transA=ta)
+        h.c("sc", w((3,)))
+        h.c("bi", w((3,)))
+        h.c("mean", w((3,)))
+        h.c("var", (rng.integers(1, 5, size=(3,)) / 2).astype(f32))
+        h.n("BatchNormalization", ["g", "sc", "bi", "mean", "var"], "y")
+        h.out("y")
+        out.append(h.build())
     # BatchNormalization in training mode (statistics of the batch): with the running outputs unused / used
     for inbound, stats_used in itertools.product(["Conv", "none"], [False, True]):
         h = H(f"BatchNorm training_mode=1 after {inbound}, running outputs {'used' if stats_used else 'unused'}")
@@ -1164,6 +1193,64 @@ def hosts_control_flow():
     return out
 
 
+def hosts_functions():
+    """model-local functions with attribute parameters referenced at several depths (function body, If branch inside it, nested
+    twice), with and without defaults, called several times with different values and from inside a subgraph of the main graph"""
+    out = []
+    cst = nh.from_array(np.array([-1.0, 4.0, -3.0], dtype=np.float32), "k")
+
+    def fn_body(depth):
+        # depth 0: ref attribute on a foldable node of the body itself; depth d: inside d nested If branches
+        def inner(d):
+            if d == 0:
+                return [oh.make_node("Constant", [], ["k"], value=cst), oh.make_node("LeakyRelu", ["k"], ["lk"], alpha=0.0),
+                        oh.make_node("Add", ["p", "lk"], ["r"])], "r"
+            nodes_, o_ = inner(d - 1)
+            tb = oh.make_graph(nodes_, f"t{d}", [], [oh.make_tensor_value_info(o_, F, [3])])
+            eb = oh.make_graph([oh.make_node("Constant", [], ["k2"], value=cst), oh.make_node("Elu", ["k2"], ["ek"], alpha=0.0),
+                                oh.make_node("Sub", ["p", "ek"], [f"e{d}"])], f"e{d}", [], [oh.make_tensor_value_info(f"e{d}", F, [3])])
+            return [oh.make_node("If", ["c"], [f"y{d}"], then_branch=tb, else_branch=eb)], f"y{d}"
+        nodes_, o_ = inner(depth)
+
+        def set_ref(ns):
+            for n_ in ns:
+                for a in n_.attribute:
+                    if a.name == "alpha":
+                        a.ClearField("f")
+                        a.ref_attr_name = "alpha"
+                        a.type = onnx.AttributeProto.FLOAT
+                    if a.type == onnx.AttributeProto.GRAPH:
+                        set_ref(a.g.node)
+        set_ref(nodes_)
+        return nodes_, o_
+
+    for depth in (0, 1, 2):
+        for default in (None, 0.25):
+            nodes_, o_ = fn_body(depth)
+            nodes_.append(oh.make_node("Identity", [o_], ["q"]))
+            if default is None:
+                fn = oh.make_function("local", "F", ["p", "c"], ["q"], nodes_, [oh.make_opsetid("", 18)], attributes=["alpha"])
+            else:
+                fn = oh.make_function("local", "F", ["p", "c"], ["q"], nodes_, [oh.make_opsetid("", 18)],
+                                      attribute_protos=[oh.make_attribute("alpha", default)])
+            for calls in ("two calls", "call in a branch"):
+                if calls == "two calls":
+                    main_nodes = [oh.make_node("F", ["x", "c"], ["y1"], domain="local", alpha=0.5),
+                                  oh.make_node("F", ["y1", "c"], ["y2"], domain="local", **({} if default is not None else {"alpha": 2.0}))]
+                    outs_ = ["y1", "y2"]
+                else:
+                    tb = oh.make_graph([oh.make_node("F", ["x", "c"], ["tb_o"], domain="local", alpha=2.0)], "mt", [], [oh.make_tensor_value_info("tb_o", F, [3])])
+                    eb = oh.make_graph([oh.make_node("Neg", ["x"], ["eb_o"])], "me", [], [oh.make_tensor_value_info("eb_o", F, [3])])
+                    main_nodes = [oh.make_node("If", ["c"], ["y1"], then_branch=tb, else_branch=eb)]
+                    outs_ = ["y1"]
+                g = oh.make_graph(main_nodes, "fnhost", [oh.make_tensor_value_info("x", F, [3]), oh.make_tensor_value_info("c", B, [])],
+                                  [oh.make_tensor_value_info(o, F, [3]) for o in outs_])
+                m = oh.make_model(g, opset_imports=[oh.make_opsetid("", 18), oh.make_opsetid("local", 1)], functions=[fn], ir_version=9)
+                out.append((m.SerializeToString(), [("x", int(F), (3,)), ("c", int(B), ())],
+                            f"function F<alpha{'' if default is None else '=0.25'}> ref attribute at depth {depth}, {calls}"))
+    return out
+
+
 def hosts_overridable_defaults():
     """shape-like / control operands that are graph inputs WITH a default value (overridable initializers): the optimizer may not
     treat the default as the value.  (C04's solver leg makes the override symbolic.)"""
@@ -1295,7 +1382,7 @@ FAMILIES = {
     "expand": hosts_expand, "reshape_family": hosts_reshape_family, "clip_relu_minmax": hosts_clip_relu_minmax,
     "hardswish": hosts_hardswish, "matmul_gemm": hosts_matmul_gemm, "conv": hosts_conv, "scatter": hosts_scatter,
     "control_flow": hosts_control_flow, "conv_integer": hosts_conv_integer, "shape_attrs": hosts_shape_attrs, "optional_inputs": hosts_optional_inputs,
-    "sequences": hosts_sequences, "overridable_defaults": hosts_overridable_defaults,
+    "sequences": hosts_sequences, "overridable_defaults": hosts_overridable_defaults, "functions": hosts_functions,
 }
 
 
@@ -1324,6 +1411,6 @@ def rule_models_for_optimizer(tier):
                 plain = [h for h in hs if ": Expand x=" in h[2]]
                 out += plain + [h for h in hs if h not in plain][:15]
                 continue
-            out += hs if fam in ("control_flow", "optional_inputs", "overridable_defaults") else hs[:60] if fam in ("shape_attrs", "sequences") else hs[:25]
+            out += hs if fam in ("control_flow", "optional_inputs", "overridable_defaults", "functions") else hs[:60] if fam in ("shape_attrs", "sequences") else hs[:25]
         return out
     return hosts
